@@ -101,12 +101,16 @@ pub struct DeState {
     plan: DePlan,
     rng: Rng,
     pub history: Vec<DeEvent>,
+    /// maps whose visitor returned Ok without having asked for the end of the map (by struct name)
+    pub undrained: Vec<String>,
+    /// (name given to deserialize_struct, name the struct was written under)
+    pub name_mismatch: Vec<(String, String)>,
 }
 
 impl DeState {
     pub fn new(plan: DePlan) -> RefCell<DeState> {
         let seed = if let DePlan::Random { seed, .. } = &plan { *seed } else { 0 };
-        RefCell::new(DeState { plan, rng: Rng::new(seed), history: vec![] })
+        RefCell::new(DeState { plan, rng: Rng::new(seed), history: vec![], undrained: vec![], name_mismatch: vec![] })
     }
     pub fn failed(&self) -> Vec<(usize, String)> {
         self.history.iter().enumerate().filter(|(_, e)| !e.ok).map(|(i, e)| (i, e.kind.clone())).collect()
@@ -180,7 +184,7 @@ impl<'de> de::Deserializer<'de> for SimDe<'de> {
                 access(self.st, "struct", name)?;
                 let order = if self.p.shape == Shape::Seq { order_of(self.p, fields, self.path) } else { with_noise(order_of(self.p, fields, self.path), self.p.noise, self.path) };
                 match self.p.shape {
-                    Shape::Map | Shape::MapByHint => v.visit_map(MapAcc { fields, order, pos: 0, pending: None, de: self }),
+                    Shape::Map | Shape::MapByHint => visit_map_checked(v, MapAcc { fields, order, pos: 0, pending: None, de: self }, name),
                     Shape::Seq => v.visit_seq(SeqAcc { fields, pos: 0, de: self }),
                 }
             }
@@ -193,6 +197,9 @@ impl<'de> de::Deserializer<'de> for SimDe<'de> {
     }
     fn deserialize_struct<V: Visitor<'de>>(self, _name: &'static str, hint: &'static [&'static str], v: V) -> Result<V::Value, SimError> {
         if let (Shape::MapByHint, Node::Struct { name, fields }) = (self.p.shape, self.node) {
+            if name != _name {
+                self.st.borrow_mut().name_mismatch.push((_name.to_string(), name.clone()));
+            }
             access(self.st, "struct", name)?;
             // entries the hint names, in the order of the hint, each at most once
             let mut order = vec![];
@@ -204,13 +211,38 @@ impl<'de> de::Deserializer<'de> for SimDe<'de> {
                 }
             }
             let order = with_noise(order, self.p.noise, self.path);
-            return v.visit_map(MapAcc { fields, order, pos: 0, pending: None, de: self });
+            return visit_map_checked(v, MapAcc { fields, order, pos: 0, pending: None, de: self }, name);
+        }
+        if let Node::Struct { name, .. } = self.node {
+            if name != _name {
+                self.st.borrow_mut().name_mismatch.push((_name.to_string(), name.clone()));
+            }
         }
         self.deserialize_any(v)
     }
     fn is_human_readable(&self) -> bool {
         self.p.human_readable
     }
+}
+
+/// visit_map, and afterwards: did the visitor ask for the end of the map?  A streaming format (CBOR indefinite-length
+/// maps, as ciborium reads them) consumes its end marker inside the next_key call that answers None; a visitor that
+/// returns as soon as it has all its fields leaves the marker unread, and the enclosing value misreads it.
+fn visit_map_checked<'de, V: Visitor<'de>>(v: V, acc: MapAcc<'de>, name: &str) -> Result<V::Value, SimError> {
+    let st = acc.de.st;
+    let ends_before = st.borrow().history.iter().filter(|e| e.kind == "end").count();
+    let opened = st.borrow().history.len();
+    let r = v.visit_map(acc)?;
+    let s = st.borrow();
+    // an end probe recorded after this map was opened, not belonging to a nested map (nested maps opened later have
+    // closed again by now: each adds exactly one end probe of its own when drained)
+    let ends_now = s.history.iter().filter(|e| e.kind == "end").count();
+    let nested_structs = s.history[opened..].iter().filter(|e| e.kind == "struct").count();
+    drop(s);
+    if ends_now - ends_before < nested_structs + 1 {
+        st.borrow_mut().undrained.push(name.to_string());
+    }
+    Ok(r)
 }
 
 struct MapAcc<'de> {
